@@ -119,6 +119,20 @@ def jwtFinderOf (w : Wire) : String → PO SigningKey :=
   else if tag = "panic" then fun _ => PO.panic "finder"
   else fun _ => PO.fail "key-not-found"
 
+/-- finder spec on the decoded header view: as `jwtFinderOf`, plus ["jwks", [[kid, key]…]] -/
+def jwtViewFinderOf (w : Wire) : HdrView → PO SigningKey :=
+  let a := w.asArr
+  if (arg a 0).asStr = "jwks" then
+    jwtJWKSKeyFinder ((arg a 1).asArr.filterMap fun e =>
+      match keyOf (arg e.asArr 1) with
+      | some k => some ((arg e.asArr 0).asStr, k)
+      | none => none)
+  else fun h => jwtFinderOf w h.alg
+
+def rawSigOf (w : Wire) : RawSig :=
+  let a := w.asArr
+  { protectedRaw := (arg a 0).asBytes?, headerRaw := (arg a 1).asBytes?, sigLen := (arg a 2).asNat }
+
 def kwArgsOf (w : Wire) : KwArgs :=
   let a := w.asArr
   { cekLen := (arg a 0).asNat, dataLen := (arg a 1).asNat, epk := matOf (arg a 2),
@@ -157,6 +171,14 @@ def ops : OpTable := [
   -- [av, finder, hdrAlg, sigLen] → outcome
   ("c03.jwt", fun a => PO.toOp (do
       jwtParse (avOf (arg a 0)) (jwtFinderOf (arg a 1)) (arg a 2).asStr (arg a 3).asNat (pure ())
+      pure (.bool true))),
+  -- [av, finder, [[protected bytes|_, header bytes|_, sigLen]…]] → outcome (index)
+  ("c03.jwsraw", fun a => PO.toOp (do
+      let i ← jwsVerifyRaw (avOf (arg a 0)) (jwsFinderOf (arg a 1)) ((arg a 2).asArr.map rawSigOf)
+      pure (.int i))),
+  -- [av, finder, header bytes, sigLen] → outcome
+  ("c03.jwtraw", fun a => PO.toOp (do
+      jwtParseRaw (avOf (arg a 0)) (jwtViewFinderOf (arg a 1)) (arg a 2).asBytes (arg a 3).asNat (pure ())
       pure (.bool true))),
   ("c03.guess", pureOp fun a =>
       ((guessAlg (arg a 0).asStr (arg a 1).asStr).bind fun c => .ok (.str (sigNameOf c))).toWire),
